@@ -206,6 +206,11 @@ unsafe impl GlobalAlloc for SimAlloc {
         // placement modes (from the layout seed): random page (default) or the next pages in
         // ascending order, the way a bump allocator clusters addresses
         let start = if PAGE_MODE.load(Relaxed) == 1 { (NEXT_PAGE.load(Relaxed) + 1) % PAGES } else { (lrand() % PAGES as u64) as usize };
+        // guard mode: the block ends at the end of its last page (up to alignment) and is
+        // followed by an inaccessible page, so that reading or writing past its end faults
+        let guard = OFF_MODE.load(Relaxed) == 3 && npages + 1 <= MAX_BLOCK_PAGES;
+        let data_pages = npages;
+        let npages = if guard { npages + 1 } else { npages };
         let mut p = start;
         let mut scanned = 0usize;
         loop {
@@ -244,6 +249,13 @@ unsafe impl GlobalAlloc for SimAlloc {
         LIVE_BYTES.fetch_add(l.size(), Relaxed);
         let al = l.align().max(8);
         NEXT_PAGE.store(p + npages - 1, Relaxed);
+        if guard {
+            mprotect((BASE + (p + data_pages) * PAGE) as *mut u8, PAGE, 0);
+            let a = l.align().max(1);
+            let off = (data_pages * PAGE - l.size()) / a * a;
+            digest(((p as u64) << 16) ^ off as u64 ^ ((l.size() as u64) << 40) ^ 0x6A);
+            return (BASE + p * PAGE + off) as *mut u8;
+        }
         let off = if npages == 1 {
             let slack = (PAGE - l.size()) / al;
             match OFF_MODE.load(Relaxed) {
@@ -398,7 +410,7 @@ pub fn reset(layout_seed: u64, arena_on: bool) {
     LSEED.store(layout_seed ^ 0xA5A5_5A5A_1234_5678, Relaxed);
     let mode = (layout_seed >> 3) % 16;
     // (small seeds, which minimised replay files use, keep the default mode)
-    OFF_MODE.store(match mode { 4 | 6 => 1, 5 => 2, _ => 0 }, Relaxed);
+    OFF_MODE.store(match mode { 4 | 6 => 1, 5 => 2, 8 | 9 => 3, _ => 0 }, Relaxed);
     PAGE_MODE.store(usize::from(mode == 6 || mode == 7), Relaxed);
     FIXED_OFF.store(((layout_seed >> 9) % 256) as usize * 16, Relaxed);
     NEXT_PAGE.store((layout_seed >> 20) as usize % PAGES, Relaxed);
